@@ -88,6 +88,142 @@ func connStreamCuts(e *Env) {
 				}
 			}
 			e.count("stream-close-at-cut", fmt.Sprintf("scc-%v-%v-%v", m[0], m[1], eof))
+
+			// (c) Close on a connection whose peer has gone silent (no acknowledgement will come): the
+			// local end is stopped at once: a reader blocked on the stream returns, later writes are refused
+			r3 := newConnRun(e, m[0], m[1])
+			st3 := openGatedStream(e, r3, ch3())
+			if st3 != nil {
+				rd := make(chan error, 1)
+				go func() {
+					var x []byte
+					rd <- st3.ReadMessage(nil, &x)
+				}()
+				quiesce()
+				go st3.Close()
+				quiesce()
+				for _, w := range r3.msgs.writeGate.list() { // the close request leaves; nobody answers it
+					r3.msgs.writeGate.release(w, nil)
+				}
+				select {
+				case err := <-rd:
+					if err != rpc.ErrStreamShutdown {
+						e.fail(pidOf(e)+"-blocked-read-error-kind", fmt.Sprintf("a ReadMessage blocked at Close returned %v", err), nil)
+					}
+				case <-time.After(3 * time.Second):
+					e.fail(pidOf(e)+"-stream-reader-stays-blocked", "Stream.Close was called while the peer had gone silent (its acknowledgement never comes): a ReadMessage blocked on that stream was not released within 3s", map[string]interface{}{"directIO": m[0], "pipelining": m[1]})
+				}
+				wr := make(chan error, 1)
+				go func() { mm := []byte{1}; wr <- st3.WriteMessage(&mm) }()
+				select {
+				case err := <-wr:
+					if err != rpc.ErrStreamShutdown {
+						e.fail(pidOf(e)+"-write-after-close", fmt.Sprintf("WriteMessage after Close (peer silent) returned %v", err), nil)
+					}
+				case <-time.After(2 * time.Second):
+					e.fail(pidOf(e)+"-write-after-close", "WriteMessage after Close (peer silent) was not refused: it went on to the transport", nil)
+					for _, w := range r3.msgs.writeGate.list() {
+						r3.msgs.writeGate.release(w, nil)
+					}
+				}
+				r3.msgs.readCh <- readItem{err: io.EOF}
+				quiesce()
+			}
+			e.count("stream-close-silent-peer", fmt.Sprintf("scs-%v-%v-%v", m[0], m[1], eof))
+
+			// (d) client pipelining: the write of the open request returns late - after the acknowledgement
+			// was processed and after the connection has ended; the stream is stopped all the same
+			if m[1] {
+				r4 := newConnRun(e, m[0], m[1])
+				type res4 struct {
+					s   rpc.Stream
+					err error
+				}
+				c4 := make(chan res4, 1)
+				go func() { s, err := r4.conn.NewStream("S.Chat"); c4 <- res4{s, err} }()
+				quiesce()
+				var seq uint64
+				held := r4.msgs.writeGate.list()
+				for _, w := range held {
+					if h, err := decodePBReq(w.data); err == nil {
+						seq = h.Seq
+					}
+				}
+				// the peer has the request although the local write has not returned yet
+				r4.msgs.readCh <- readItem{frame: pbRespFrame(seq, "", nil)}
+				quiesce()
+				for len(r4.decGate.list()) > 0 {
+					r4.decGate.release(r4.decGate.list()[0], nil)
+					quiesce()
+				}
+				var st4 rpc.Stream
+				select {
+				case x := <-c4:
+					st4 = x.s
+				case <-time.After(2 * time.Second):
+				}
+				if st4 != nil {
+					if eof {
+						r4.msgs.readCh <- readItem{err: io.EOF}
+					} else {
+						r4.msgs.readCh <- readItem{err: fmt.Errorf("read: boom")}
+					}
+					quiesce()
+					for _, w := range held {
+						r4.msgs.writeGate.release(w, nil)
+					}
+					quiesce()
+					if _, err, ok := readWithTimeout(st4, 3*time.Second); !ok {
+						e.fail(pidOf(e)+"-stream-reader-stays-blocked", "client pipelining: the open request's write returned only after the connection had ended; a ReadMessage on that stream blocks for ever", map[string]interface{}{"directIO": m[0], "pipelining": m[1], "eof": eof})
+					} else if err != rpc.ErrStreamShutdown {
+						e.fail(pidOf(e)+"-blocked-read-error-kind", fmt.Sprintf("ReadMessage on a stream of an ended connection returned %v", err), nil)
+					}
+				}
+				for _, w := range r4.msgs.writeGate.list() {
+					r4.msgs.writeGate.release(w, nil)
+				}
+				e.count("stream-open-write-lags", fmt.Sprintf("sowl-%v-%v", m[0], eof))
+			}
 		}
+	}
+}
+
+func pidOf(e *Env) string { return e.Res.Property }
+
+type gres struct {
+	s   rpc.Stream
+	err error
+}
+
+func ch3() chan gres { return make(chan gres, 1) }
+
+// openGatedStream opens a stream on a gated connection: releases the open request, feeds the acknowledgement
+func openGatedStream(e *Env, r *connRun, ch chan gres) rpc.Stream {
+	go func() { s, err := r.conn.NewStream("S.Chat"); ch <- gres{s, err} }()
+	quiesce()
+	var seq uint64
+	for _, w := range r.msgs.writeGate.list() {
+		if h, err := decodePBReq(w.data); err == nil {
+			seq = h.Seq
+		}
+		r.msgs.writeGate.release(w, nil)
+	}
+	quiesce()
+	r.msgs.readCh <- readItem{frame: pbRespFrame(seq, "", nil)}
+	quiesce()
+	for len(r.decGate.list()) > 0 {
+		r.decGate.release(r.decGate.list()[0], nil)
+		quiesce()
+	}
+	select {
+	case x := <-ch:
+		if x.err != nil {
+			e.fail("C09-open-failed", fmt.Sprintf("NewStream failed on a healthy connection: %v", x.err), nil)
+			return nil
+		}
+		return x.s
+	case <-time.After(4 * time.Second):
+		e.fail("C09-open-failed", "NewStream did not return after its acknowledgement", nil)
+		return nil
 	}
 }
